@@ -38,9 +38,12 @@ def check_roundtrip(shp, order, mbits, quant, form):
         x = np.ma.array(vals.copy(), mask=mask)
         xin = U.Quantity(x, "m") if quant else x
         c = T.to_compressed(xin, order=order)
-    else:  # plain data plus external mask
+    else:  # plain data plus external mask (also handed in as 0/1 integers, e.g. a land/sea raster)
         xin = U.Quantity(vals.copy(), "m") if quant else vals.copy()
-        c = T.to_compressed(xin, order=order, mask=mask)
+        emask = mask
+        if form.startswith("external_") and mask is not np.ma.nomask:
+            emask = mask.astype({"external_i8": np.int8, "external_u8": np.uint8, "external_i64": np.int64}[form])
+        c = T.to_compressed(xin, order=order, mask=emask)
     cm = c.magnitude if quant else c
     want = vals.ravel(order=order)[~mfull.ravel(order=order)]
     if quant and (not hasattr(c, "units") or str(c.units) not in ("m", "meter")):
@@ -48,7 +51,7 @@ def check_roundtrip(shp, order, mbits, quant, form):
     if np.shape(cm) != want.shape or not np.array_equal(np.asarray(cm), want):
         bad.append(("compressed_order_or_content", f"got {np.asarray(cm).tolist()} want {want.tolist()}"))
         return bad
-    r = T.from_compressed(c, shp, order=order, mask=mask)
+    r = T.from_compressed(c, shp, order=order, mask=emask if form.startswith("external_") else mask)
     rm = r.magnitude if quant else r
     if np.shape(rm) != tuple(shp):
         bad.append(("expanded_shape", f"{np.shape(rm)}"))
@@ -71,7 +74,15 @@ def check_prepare(cfg, form):
         m[idx] = maskf(coord)
         a[idx] = 1.0 + sum(c * (10**k) for k, c in enumerate(coord))
     info = fm.Info(time=T0, grid=g, units="m", mask=m)
+    if form in ("ndarray_nan", "quantity_inf"):
+        free = [idx for idx in ref if not m[idx]]
+        if not free:
+            return []
+        a = a.copy()
+        a[free[0]] = np.nan if form == "ndarray_nan" else np.inf
+    m_before = m.copy()
     payload = {
+        "ndarray_nan": a.copy(), "quantity_inf": U.Quantity(a.copy(), "m"),
         "ndarray": a.copy(), "list": a.tolist(), "flat": a.reshape(-1, order=g.order).copy(), "time_axis": a[np.newaxis, ...].copy(), "quantity": U.Quantity(a.copy(), "m"),
         "quantity_km": U.Quantity(a.copy() / 1000.0, "km"), "masked_same": np.ma.array(a.copy(), mask=m.copy()),
     }[form]
@@ -85,8 +96,10 @@ def check_prepare(cfg, form):
         return [("shape", f"{mag.shape}")]
     if not np.ma.isMaskedArray(mag) or not np.array_equal(np.ma.getmaskarray(mag)[0], m):
         bad.append(("prepared_mask_differs", f"{np.ma.getmaskarray(mag).tolist()} != {m.tolist()}"))
-    if not np.allclose(np.ma.getdata(mag)[0][~m], a[~m]):
+    if not np.allclose(np.ma.getdata(mag)[0][~m], a[~m], equal_nan=True):
         bad.append(("prepared_values", ""))
+    if not np.array_equal(np.asarray(info.mask), m_before):
+        bad.append(("info_mask_changed_by_prepare", ""))
     return bad
 
 
@@ -229,12 +242,15 @@ def run(tier, seed, agg):
                 for quant in (False, True):
                     for form in ("masked", "external"):
                         rt.append([list(shp), order, mb, quant, form])
+                    if mb != "nomask" and (isinstance(mb, int) and mb % 3 == 1):
+                        for form in ("external_i8", "external_u8", "external_i64"):
+                            rt.append([list(shp), order, mb, quant, form])
     prep, acc = [], []
     for dim in (1, 2, 3):
         for loc in ("CELLS", "POINTS"):
             lays = list(layouts(dim))
             for l in lays:
-                for form in ("ndarray", "list", "flat", "time_axis", "quantity", "quantity_km", "masked_same"):
+                for form in ("ndarray", "list", "flat", "time_axis", "quantity", "quantity_km", "masked_same", "ndarray_nan", "quantity_inf"):
                     prep.append([cfg_of("uniform", dim, loc, l), form])
             if dim == 3 and q:
                 lays = [l for l in lays if l["order"] == "F"]
@@ -242,6 +258,14 @@ def run(tier, seed, agg):
                 for ps in SPECS:
                     for cs in SPECS:
                         acc.append([cfg_of("uniform", dim, loc, l1), cfg_of("uniform", dim, loc, l2), ps, cs])
+    # transects / columns: grids with axes of length one
+    for dim, dims in ((2, (6, 1)), (2, (1, 6)), (3, (1, 1, 7)), (3, (5, 1, 1))):
+        lays = list(layouts(dim))
+        if dim == 3:
+            lays = lays[::3]
+        for l1, l2 in itertools.product(lays, repeat=2):
+            for ps, cs in (("M", "M"), ("M", "Mraw"), ("M2", "M"), ("M", "Msame"), ("allfalse", "M")):
+                acc.append([cfg_of("uniform", dim, "POINTS", l1, dims=dims), cfg_of("uniform", dim, "POINTS", l2, dims=dims), ps, cs])
     cases = [dict(kind="roundtrip", items=c) for c in chunks(rt, 600)] + [dict(kind="prepare", items=c) for c in chunks(prep, 100)] + [dict(kind="accept", items=c) for c in chunks(acc, 400)]
     k = seed % len(cases)
     for r in pmap(run_case, cases[k:] + cases[:k]):
